@@ -170,6 +170,15 @@ class FuseSuccessiveReluClip(FuseSuccessiveClipRelu):
     def pattern(self, op, x):
         return op.Relu(op.Clip(x, _allow_other_inputs=True, _outputs=["out_first_clip"]))
 
+    def compute_clip_min_max(self, first_clip_node: ir.Node, _):
+        # Relu(Clip(x, lo, hi)) == Clip(x, max(lo, 0), max(hi, 0)): unlike Clip(Relu(x)),
+        # the Relu is applied last, so a negative upper bound must be raised to 0 as well.
+        min_clip, max_clip = super().compute_clip_min_max(first_clip_node, _)
+        if max_clip is not None:
+            max_value = max_clip.numpy()
+            max_clip = ir.tensor(np.maximum(np.zeros_like(max_value), max_value))
+        return min_clip, max_clip
+
 
 successive_relu_rule = FuseSuccessiveRelu().rule()
 successive_clip_rule = FuseSuccessiveClip().rule()
